@@ -46,6 +46,18 @@ pub const KEYS: &[(&str, &str)] = &[
         "operand-truncated-to-target-width",
         "the width of the assignment target (function argument, port, index) is used as the context width of the whole right-hand side, so an operand wider than the target is truncated BEFORE `>>`, `>>>`, `/` or `%` instead of after (IEEE 1800 §11.6: the context width is the maximum of both sides). expression.rs: synthesize_expr(expr, target_width)",
     ),
+    (
+        "select-of-signed-variable-is-signed",
+        "a bit / part select of a signed variable keeps the variable's signedness (IEEE 1800 11.8.1: selects are unsigned): where it is extended — e.g. compared with wider case range bounds, `case s[3:2] { 4'h2..4'h3: … }` — it is sign-extended. expression.rs resizes with expr.comptime().type.signed, which the analyzer leaves set on the select",
+    ),
+    (
+        "width-cast-ignored",
+        "`e as N` (and `as u8` …) is synthesized as `e` at the width of the surrounding context (expression.rs: Op::As => synthesize_expr(x, result_width)): no truncation to N bits, so `(-v) as 2` in a 16-bit context gives 16'hffff instead of 16'h0003",
+    ),
+    (
+        "multi-bit-condition-tests-bit-0",
+        "the condition of if / ternary / switch and the operands of && / || are synthesized with `synthesize_expr(cond, 1)[0]`: for a condition wider than one bit only bit 0 is tested (IEEE 1800: true when non-zero)",
+    ),
 ];
 
 /// Mirror of how the synthesizer hands widths down (`synthesize_expr(e, w)`):
@@ -184,6 +196,34 @@ fn expr_hits(design: &Design, m: &Module, e: &Expr, dest_w: u32, out: &mut BTree
         if let Expr::Bin(op, a, b) = n.e {
             if matches!(op, BinOp::Lt | BinOp::Le | BinOp::Gt | BinOp::Ge) && n.in_ctx && ty_of(mm, a).signed && ty_of(mm, b).signed {
                 out.insert("signed-comparison-in-unsigned-context");
+            }
+        }
+        match n.e {
+            Expr::Cast(..) => {
+                if (n.in_ctx || n.root) && t.w < n.ctx.w {
+                    out.insert("width-cast-ignored");
+                }
+            }
+            Expr::If(c, _, _) => {
+                if ty_of(mm, c).w > 1 {
+                    out.insert("multi-bit-condition-tests-bit-0");
+                }
+            }
+            Expr::Switch(arms, _) => {
+                if arms.iter().any(|(cs, _)| cs.iter().any(|c| ty_of(mm, c).w > 1)) {
+                    out.insert("multi-bit-condition-tests-bit-0");
+                }
+            }
+            Expr::Bin(BinOp::LogAnd | BinOp::LogOr, a, b) => {
+                if ty_of(mm, a).w > 1 || ty_of(mm, b).w > 1 {
+                    out.insert("multi-bit-condition-tests-bit-0");
+                }
+            }
+            _ => {}
+        }
+        if let Expr::Ref(r) = n.e {
+            if !matches!(r.sel, Sel::None) && eval::ref_base_ty(mm, r).signed {
+                out.insert("select-of-signed-variable-is-signed");
             }
         }
         if let Expr::Bin(BinOp::AShr, a, _) = n.e {
@@ -548,6 +588,53 @@ fn used_consts(m: &Module) -> BTreeSet<DeclId> {
     used
 }
 
+/// statement-level shapes: conditions wider than a bit; `x op= e` is `x = x op e`
+fn stmt_level_hits(design: &Design, m: &Module, ss: &[Stmt], out: &mut BTreeSet<&'static str>) {
+    for s in ss {
+        match s {
+            Stmt::Assign { lhs, op: AssignOp::Op(b), rhs } => {
+                let e = Expr::bin(*b, Expr::Ref(lhs.clone()), rhs.clone());
+                expr_hits(design, m, &e, eval::ref_ty(m, lhs).w, out);
+            }
+            Stmt::If { cond, then, els } => {
+                if ty_of(m, cond).w > 1 {
+                    out.insert("multi-bit-condition-tests-bit-0");
+                }
+                stmt_level_hits(design, m, then, out);
+                stmt_level_hits(design, m, els, out);
+            }
+            Stmt::Case { arms, default, .. } => {
+                for (_, b) in arms {
+                    stmt_level_hits(design, m, b, out);
+                }
+                if let Some(d) = default {
+                    stmt_level_hits(design, m, d, out);
+                }
+            }
+            Stmt::Switch { arms, default } => {
+                for (cs, b) in arms {
+                    if cs.iter().any(|c| ty_of(m, c).w > 1) {
+                        out.insert("multi-bit-condition-tests-bit-0");
+                    }
+                    stmt_level_hits(design, m, b, out);
+                }
+                if let Some(d) = default {
+                    stmt_level_hits(design, m, d, out);
+                }
+            }
+            Stmt::For { body, break_if, .. } => {
+                if let Some(b) = break_if {
+                    if ty_of(m, b).w > 1 {
+                        out.insert("multi-bit-condition-tests-bit-0");
+                    }
+                }
+                stmt_level_hits(design, m, body, out);
+            }
+            _ => {}
+        }
+    }
+}
+
 /// Keys of the known findings whose trigger shape occurs in `design`.
 pub fn design_hits(design: &Design) -> Vec<&'static str> {
     let mut out: BTreeSet<&'static str> = BTreeSet::new();
@@ -563,7 +650,9 @@ pub fn design_hits(design: &Design) -> Vec<&'static str> {
             if let (DeclKind::Const | DeclKind::Param, Some(e)) = (&d.kind, &d.init) {
                 let full = eval::eval_const(design, m, e);
                 let conv = eval::eval_const_assign(design, m, e, d.ty.w);
-                if full.x || conv.x || full.v != conv.v {
+                let ti = ty_of(m, e);
+                // value or shape differs (the width of the initialiser also leaks: `{C repeat 2}`)
+                if full.x || conv.x || full.v != conv.v || ti.w != d.ty.w || ti.signed != d.ty.signed {
                     out.insert("const-wider-than-declared-type");
                 }
             }
@@ -577,6 +666,15 @@ pub fn design_hits(design: &Design) -> Vec<&'static str> {
                         expr_hits(design, m, e, w, &mut out);
                     }
                 }
+            }
+            let mut bodies: Vec<&[Stmt]> = vec![];
+            match it {
+                Item::AlwaysComb(b) => bodies.push(b),
+                Item::AlwaysFf { body, .. } => bodies.push(body),
+                _ => {}
+            }
+            for b in bodies {
+                stmt_level_hits(design, m, b, &mut out);
             }
             if let Item::AlwaysFf { reset, .. } = it {
                 let plain = reset.iter().all(|s| {
@@ -683,7 +781,8 @@ pub fn repair(design: &mut Design) -> Vec<&'static str> {
             if let (Some(e), Some(v)) = (&d.init, &d.value) {
                 let full = eval::eval_const(&snapshot, ms, e);
                 let conv = eval::eval_const_assign(&snapshot, ms, e, d.ty.w);
-                if (full.x || conv.x || full.v != conv.v) && !matches!(d.syntax, TySyntax::Struct(_) | TySyntax::Enum(_)) {
+                let ti = ty_of(ms, e);
+                if (full.x || conv.x || full.v != conv.v || ti.w != d.ty.w || ti.signed != d.ty.signed) && !matches!(d.syntax, TySyntax::Struct(_) | TySyntax::Enum(_)) {
                     d.init = Some(Expr::lit(d.ty, v.clone()));
                     done.insert("const-wider-than-declared-type");
                 }
